@@ -1,14 +1,14 @@
 #!/bin/bash
 # tools/seedsweep.sh [jobs]  — run every seeded change under /verif/seeded against the check of its
 # own property (quick tier) in scratch copies /tmp/seedsweep<k>; prints one CAUGHT/MISSED line each.
-# Exceptions: C14-r3 is a capacity defect (checked with C07), C12-r3 is outside the listed statements.
+# Exceptions: C14-r3 and C05-r5 are capacity/expiry defects (checked with C07), C12-r3 is outside the listed statements.
 J=${1:-3}
 cd /verif
 ls seeded | sort > /tmp/seedsweep.list
 run_one() {
   k=$1; name=$2
   id=${name%%-*}
-  case $name in C14-r3) id=C07;; C12-r3) echo "SKIP seed=$name (outside the statements)"; return;; esac
+  case $name in C14-r3|C05-r5) id=C07;; C12-r3) echo "SKIP seed=$name (outside the statements)"; return;; esac
   SEEDWORK=/tmp/seedsweep$k python3 tools/seedrun.py $name $id 2>&1 | tail -1 | cut -c1-260
 }
 export -f run_one
